@@ -1,7 +1,7 @@
 (* Finite obligation (exhaustive over all 65536 record types, by evaluation):
    UnmarshalText (MarshalText t) = t. *)
 From Coq Require Import List NArith Bool.
-Require Import Bytes Tables.
+Require Import Bytes MsgType.
 Import ListNotations.
 Lemma msgtypes_text_ok : filter (fun t => negb (msgtype_text_okb t)) all_types = [].
 Proof. by_vm. Qed.
